@@ -97,12 +97,16 @@ type idpWorld struct {
 	orc    []string
 	stored map[string]string // service name -> entity ID currently stored (harness's own bookkeeping for the oracle)
 	n      int
+	// passwords: every password ever set for a user (sound under any fault pattern), and the current one while no fault has been injected
+	everPw  map[string]map[string]bool
+	curPw   map[string]*string
+	faulted bool
 }
 
 const idpRoot = "https://idp.example.com"
 
 func (c *Ctx) newIdpWorld() *idpWorld {
-	w := &idpWorld{c: c, store: &faultStore{inner: &samlidp.MemoryStore{}}, now: baseTime, sids: map[string]string{}, sps: map[string]*saml.ServiceProvider{}, stored: map[string]string{}}
+	w := &idpWorld{c: c, store: &faultStore{inner: &samlidp.MemoryStore{}}, now: baseTime, sids: map[string]string{}, sps: map[string]*saml.ServiceProvider{}, stored: map[string]string{}, everPw: map[string]map[string]bool{}, curPw: map[string]*string{}}
 	w.setClock()
 	w.newServer()
 	return w
@@ -325,7 +329,38 @@ func (w *idpWorld) putUser(name, email, cn string, groups []string, pw *string, 
 		m["password"] = *pw
 	}
 	b, _ := json.Marshal(m)
-	w.do(idpReq{toks: joinToks([]string{"putUser", encStr(name), encStr(profileOf(email, cn, groups))}, optTok(pw)), method: "PUT", path: "/users/" + name, body: b, faults: faults}, "putUser")
+	if pw != nil {
+		if w.everPw[name] == nil {
+			w.everPw[name] = map[string]bool{}
+		}
+		w.everPw[name][*pw] = true // recorded before the call: a failed PUT may still have stored it
+	}
+	if len(faults) > 0 {
+		w.faulted = true
+	}
+	res := w.do(idpReq{toks: joinToks([]string{"putUser", encStr(name), encStr(profileOf(email, cn, groups))}, optTok(pw)), method: "PUT", path: "/users/" + name, body: b, faults: faults}, "putUser")
+	if strings.HasPrefix(res, "2") && pw != nil {
+		p := *pw
+		w.curPw[name] = &p
+	}
+}
+
+// checkAuthn: a reply that establishes a session from form credentials requires that user's password
+func (w *idpWorld) checkAuthn(res, user, pw string, hasCred bool, sid string) {
+	if !hasCred || sid != "" {
+		return
+	}
+	parts := strings.Split(res, "/")
+	newSession := len(parts) >= 3 && parts[len(parts)-1] != "-"
+	issued := strings.Contains(res, "/saml:")
+	if !newSession && !issued {
+		return
+	}
+	if !w.everPw[user][pw] {
+		w.orc = append(w.orc, fmt.Sprintf("key=authn-without-password step %d: user %q was logged in with a password (%q) that was never set for that user", w.n, user, pw))
+	} else if !w.faulted && (w.curPw[user] == nil || *w.curPw[user] != pw) {
+		w.orc = append(w.orc, fmt.Sprintf("key=authn-stale-password step %d: user %q was logged in with a password that is not the current one", w.n, user))
+	}
 }
 
 func (w *idpWorld) simple(op, method, path string, args []string, faults []string) string {
@@ -387,7 +422,12 @@ func (w *idpWorld) login(user, pw string, hasCred bool, sid string, faults []str
 		r.method, r.ctype = "POST", "application/x-www-form-urlencoded"
 		r.body = []byte(url.Values{"user": {user}, "password": {pw}}.Encode())
 	}
-	return w.do(r, "login")
+	if len(faults) > 0 {
+		w.faulted = true
+	}
+	res := w.do(r, "login")
+	w.checkAuthn(res, user, pw, hasCred, sid)
+	return res
 }
 
 func (w *idpWorld) sso(entity string, valid bool, user, pw string, hasCred bool, sid string, relay string, faults []string) string {
@@ -412,8 +452,12 @@ func (w *idpWorld) sso(entity string, valid bool, user, pw string, hasCred bool,
 		must(err)
 		r.method, r.path = "GET", "/sso?"+u.RawQuery
 	}
+	if len(faults) > 0 {
+		w.faulted = true
+	}
 	res := w.do(r, "sso")
 	w.checkSAML(res, entity)
+	w.checkAuthn(res, user, pw, hasCred, sid)
 	return res
 }
 
